@@ -16,7 +16,7 @@ PROPS = {
              coq=('Proofs/Ledger.v', 'Proofs/ClaimLedger.v', 'Proofs/Partition.v', 'Proofs/Lifecycle.v', 'Proofs/Setup.v', 'Proofs/SetupPrice.v', 'Proofs/SetupGt.v', 'Proofs/SetupNft.v', 'Proofs/SetupNgt.v')),
     'C02': P('launchpad-token ledger: deposit acceptance iff tpt x (W+R), cover, surplus',
              eps=('deposit', 'claim', 'claimPayment', 'setTpt'), cats=('bal', 'status', 'locks'), views=('deposited', 'tpt', 'nrWinning'),
-             coq=('Proofs/Ledger.v', 'Proofs/Reserve.v', 'Proofs/ClaimLedger.v', 'Proofs/VestedCover.v', 'Proofs/VestedLifecycle.v', 'Proofs/SetupVested.v', 'Proofs/SetupCover.v')),
+             coq=('Proofs/Ledger.v', 'Proofs/Reserve.v', 'Proofs/ClaimLedger.v', 'Proofs/VestedCover.v', 'Proofs/VestedLifecycle.v', 'Proofs/SetupVested.v', 'Proofs/SetupCover.v', 'Proofs/CoverSteps.v')),
     'C03': P('number and identity of winners after base selection and after the additional step',
              eps=('select', 'extra'), cats=('ret', 'status'), views=('nrWinning', 'winIds', 'totalTickets'),
              coq=('Proofs/Shuffle.v', 'Proofs/Select.v', 'Proofs/GuaranteedLoop.v', 'Proofs/Leftover.v')),
